@@ -1,7 +1,7 @@
 //! C13 — a CONNECT of the other protocol family is identified, not misparsed: version
 //! dispatcher node. n[0]: decoder family (0 = v3 codec, 1 = v5 codec); n[1]: protocol level
 //! override (-1 = none); n[2]: protocol-name corruption (0 none, 1 ASCII change, 2 non-UTF-8,
-//! 3 other length).
+//! >= 3 a name of another length, 0..=12 bytes).
 
 use std::panic::AssertUnwindSafe;
 use std::rc::Rc;
@@ -40,11 +40,19 @@ pub fn gen(rng: &mut Rng, tier: Tier, idx: u64) -> Case {
     let sw = gen::swarm_for(rng, fam, tier == Tier::Thorough);
     let mut c = Case::new("C13", "c13-crossfamily", fam, Front::A);
     c.packets = vec![gen::gen_packet_of(rng, &sw, 1)];
+    if fam == Fam::V5 && rng.chance(1, 300) && !gen::tiny() {
+        // a CONNECT larger than any v3 CONNECT can be (several maximal user properties)
+        if let Ast::Connect(cn) = &mut c.packets[0] {
+            for _ in 0..rng.urange(5, 8) {
+                cn.props.push((0x26, PVal::Pair(Bs::s("k"), Bs(vec![b'v'; 65_535]))));
+            }
+        }
+    }
     let dec = rng.below(2) as i64;
     let (level, name) = match rng.below(4) {
         0 | 1 => (-1, 0),
         2 => (((idx / 3) % 256) as i64, 0),
-        _ => (if rng.chance(1, 2) { ((idx / 3) % 256) as i64 } else { -1 }, rng.range(1, 3) as i64),
+        _ => (if rng.chance(1, 2) { ((idx / 3) % 256) as i64 } else { -1 }, rng.range(1, 16) as i64),
     };
     c.n = vec![dec, level, name];
     let pp = *rng.pick(&[0u64, 200]);
@@ -53,6 +61,7 @@ pub fn gen(rng: &mut Rng, tier: Tier, idx: u64) -> Case {
     c.cancel = gen_cancel(rng, &script, cp);
     c.read_script = script;
     c.read_tail = tail;
+    c.reader_style = rng.below(3) as u8;
     c
 }
 
@@ -61,8 +70,11 @@ fn build(c: &Case) -> (Vec<u8>, Vec<u8>, u8, usize) {
     let a = &c.packets[0];
     let mut a2 = a.clone();
     if let Ast::Connect(cn) = &mut a2 {
-        if c.n.get(2).copied().unwrap_or(0) == 3 {
-            cn.proto_name = Bs(b"MQTTT".to_vec());
+        // 3..: protocol names of other lengths (0..=12 bytes)
+        let k = c.n.get(2).copied().unwrap_or(0);
+        if k >= 3 {
+            const NAMES: [&str; 13] = ["", "M", "MQ", "MQT", "MQTTT", "MQIsd", "MQIsdpX", "MQTT-SN", "MQTTMQTT", "MQIsdpv3", "MQTT 3.1.", "MQTT 3.1.1", "MQIsdpMQIsdp"];
+            cn.proto_name = Bs::s(NAMES[(k as usize - 3) % NAMES.len()]);
         }
     }
     let e = refcodec::ref_encode(&a2, c.fam, &Style::default());
@@ -70,8 +82,8 @@ fn build(c: &Case) -> (Vec<u8>, Vec<u8>, u8, usize) {
     let name_span = e.spans.iter().find(|s| s.kind == SK::ProtoName).copied().unwrap();
     let level_span = e.spans.iter().find(|s| s.kind == SK::Level).copied().unwrap();
     match c.n.get(2).copied().unwrap_or(0) {
-        1 => f[name_span.off + 1] = b'q',
-        2 => f[name_span.off + 1] = 0xFF,
+        1 if name_span.len > 1 => f[name_span.off + 1] = b'q',
+        2 if name_span.len > 1 => f[name_span.off + 1] = 0xFF,
         _ => {}
     }
     let lv = c.n.get(1).copied().unwrap_or(-1);
